@@ -48,6 +48,8 @@ CONSTANTS NHosts,        \* hosts 1..NHosts; the load-balancing plan is <<1, ..,
           MaxRetries,    \* the decision oracle grants at most this many retries
           MaxEpoch,      \* 1, or 2 to include one start_fetching_next_page
           IdChoices,     \* subset of {"default", "zero", "one"}: stream ids the idle pool connections hand out (see `ids`)
+          TimeChoices,   \* set of codes 100 * timeout + speculative delay (virtual seconds, e.g. 502 = timeout 5, delay 2);
+                         \* 0 = untimed: the timeout is far beyond anything that happens and every delay fits
           Timeouts,      \* BOOLEAN: the client timeout may fire
           Late           \* BOOLEAN: answers may arrive after the future completed
 
@@ -64,6 +66,7 @@ VARIABLES pool,       \* host -> "healthy" | "missing" | "shutdown" | "busy" | "
           ids,        \* id space of every pool connection: "default" (as left by the handshake: ids >= 1, never re-used in
                       \* a run), "zero" (the first attempt on a connection gets stream id 0, never re-used), "one" (a single
                       \* recycled id: every attempt gets stream id 0)
+          tm,         \* <<request timeout, delay of the speculative execution plan>> (see TimeChoices)
           started,
           plan,       \* remaining query plan (the iterator)
           tried,      \* attempted_hosts
@@ -83,9 +86,15 @@ VARIABLES pool,       \* host -> "healthy" | "missing" | "shutdown" | "busy" | "
           epoch,      \* 1 = execution, 2 = next page fetch
           lastConn,   \* host of self._connection (last successful borrow) or 0
           reqAtt,     \* attempt designated by self._req_id (last send made by send_request) or 0
+          now,        \* virtual time since _start_time (only timer firings let time pass; 0 when untimed)
+          due,        \* when the live timer fires, on the same scale (0 when there is none / untimed)
+          unfit,      \* history: _start_timer was offered a speculative execution whose delay did not fit
+          pend,       \* [host, kind]: _handle_retry_decision has submitted the retry task but not yet stored
+                      \* self._errors[host] (the loop thread is still inside that callback); host = 0: none
+          nhaCls,     \* what NoHostAvailable.errors must list: host -> class (or "none"), fixed when it is raised
           act         \* last action, for replay
 
-vars == <<pool, idem, target, ids, started, plan, tried, errs, att, sentLog, policyLog, retries, cl, specLeft,
+vars == <<pool, idem, target, ids, tm, started, now, due, unfit, pend, nhaCls, plan, tried, errs, att, sentLog, policyLog, retries, cl, specLeft,
           timer, final, paging, cb, eb, dlv, queue, epoch, lastConn, reqAtt, act>>
 
 A(name, a, k, d, c) == [name |-> name, a |-> a, k |-> k, d |-> d, c |-> c]
@@ -96,7 +105,8 @@ SeqSet(s) == {s[i] : i \in 1..Len(s)}
 S == [pool |-> pool, plan |-> plan, tried |-> tried, errs |-> errs, att |-> att, sentLog |-> sentLog,
       policyLog |-> policyLog, retries |-> retries, cl |-> cl, specLeft |-> specLeft, timer |-> timer,
       final |-> final, paging |-> paging, cb |-> cb, eb |-> eb, dlv |-> dlv, queue |-> queue,
-      epoch |-> epoch, lastConn |-> lastConn, reqAtt |-> reqAtt]
+      epoch |-> epoch, lastConn |-> lastConn, reqAtt |-> reqAtt, now |-> now, due |-> due, unfit |-> unfit,
+      pend |-> pend, nhaCls |-> nhaCls]
 
 Set(s) ==
     /\ pool' = s.pool /\ plan' = s.plan /\ tried' = s.tried /\ errs' = s.errs /\ att' = s.att
@@ -104,6 +114,7 @@ Set(s) ==
     /\ specLeft' = s.specLeft /\ timer' = s.timer /\ final' = s.final /\ paging' = s.paging
     /\ cb' = s.cb /\ eb' = s.eb /\ dlv' = s.dlv /\ queue' = s.queue /\ epoch' = s.epoch
     /\ lastConn' = s.lastConn /\ reqAtt' = s.reqAtt
+    /\ now' = s.now /\ due' = s.due /\ unfit' = s.unfit /\ pend' = s.pend /\ nhaCls' = s.nhaCls
 
 (* _query's error entry for a host whose pool cannot serve the request (compared by class) *)
 ErrClass(c) == CASE c = "missing"  -> "ConnectionException"        \* no pool entry
@@ -119,6 +130,11 @@ FComplete(s, k) ==
     IF s.final # "unset" THEN s
     ELSE [s EXCEPT !.final = k,
                    !.timer = IF @ = "none" THEN "none" ELSE "stale",
+                   !.due = 0,
+                   \* NoHostAvailable(..., self._errors): the live map, so the entry that the interrupted loop-thread
+                   \* callback is about to store (pend) is part of what the application sees
+                   !.nhaCls = IF k = "NoHostAvailable"
+                              THEN [h \in Hosts |-> IF s.pend.host = h THEN s.pend.kind ELSE s.errs[h]] ELSE @,
                    !.cb = [@ EXCEPT ![s.epoch] = @ + (IF k \in ResultKinds THEN 1 ELSE 0)],
                    !.eb = [@ EXCEPT ![s.epoch] = @ + (IF k \in ResultKinds THEN 0 ELSE 1)],
                    !.dlv = [@ EXCEPT ![s.epoch] = k]]
@@ -151,13 +167,23 @@ FLoop(s, errorNoHosts) ==
              s1 == [s EXCEPT !.plan = Tail(@)] IN
          IF s.pool[h] = "healthy" THEN FSend(s1, h, TRUE) ELSE FLoop(FSkip(s1, h), errorNoHosts)
 
-(* _start_timer when _timer is None *)
-FArm(s) == [s EXCEPT !.timer = IF s.specLeft > 0 THEN "spec" ELSE "timeout",
-                     !.specLeft = IF @ > 0 THEN @ - 1 ELSE 0]
+(* _start_timer when _timer is None: next_execution() is consumed even when its delay does not fit into   *)
+(* the time that remains; then (and when the plan is exhausted) the request timeout is armed.             *)
+Timed   == tm[1] > 0
+NoPend  == [host |-> 0, kind |-> "-"]
+Fits(s) == ~Timed \/ (tm[1] - s.now > tm[2])                  \* self._time_remaining > spec_delay
+FArm(s) == IF s.specLeft > 0 /\ Fits(s)
+           THEN [s EXCEPT !.timer = "spec", !.specLeft = @ - 1, !.due = IF Timed THEN s.now + tm[2] ELSE 0]
+           ELSE [s EXCEPT !.timer = "timeout", !.specLeft = IF @ > 0 THEN @ - 1 ELSE 0,
+                          !.due = IF Timed THEN tm[1] ELSE 0,
+                          !.unfit = (@ \/ s.specLeft > 0)]
+Max(a, b) == IF a > b THEN a ELSE b
 
 (* ------------------------------------------------------------------------ *)
-InitWith(pl, id, tg, sp, im) ==
-    /\ pool = pl /\ idem = id /\ target = tg /\ specLeft = sp /\ ids = im
+InitWith(pl, id, tg, sp, im, t) ==
+    /\ pool = pl /\ idem = id /\ target = tg /\ specLeft = sp /\ ids = im /\ tm = t
+    /\ (t[1] > 0 => \A h \in Hosts : pl[h] # "busy")       \* a blocking borrow lets time pass: untimed runs only
+    /\ now = 0 /\ due = 0 /\ unfit = FALSE /\ pend = NoPend /\ nhaCls = [h \in Hosts |-> "none"]
     /\ started = FALSE
     /\ plan = <<>> /\ tried = <<>> /\ errs = [h \in Hosts |-> "none"] /\ att = {}
     /\ sentLog = <<>> /\ policyLog = <<>> /\ retries = 0 /\ cl = InitCL
@@ -168,29 +194,29 @@ InitWith(pl, id, tg, sp, im) ==
 
 PoolVectors == {f \in [Hosts -> PoolConds \cup {"healthy"}] : Cardinality({h \in Hosts : f[h] # "healthy"}) <= MaxBad}
 
-Init == \E pl \in PoolVectors, id \in IdemChoices, tg \in TargetChoices, sp \in SpecChoices, im \in IdChoices :
-            InitWith(pl, id, tg, sp, im)
+Init == \E pl \in PoolVectors, id \in IdemChoices, tg \in TargetChoices, sp \in SpecChoices, im \in IdChoices,
+           t \in TimeChoices : InitWith(pl, id, tg, sp, im, <<t \div 100, t % 100>>)
 
 (* Session.execute_async: _create_response_future (plan, timer; a speculative plan only for           *)
 (* idempotent statements), callbacks registered by a request-init listener, send_request().           *)
 Start ==
-    /\ ~started
+    /\ ~started /\ pend.host = 0
     /\ started' = TRUE
     /\ LET s0 == [S EXCEPT !.plan = IF target # 0 THEN <<target>> ELSE FullPlan,
                            !.specLeft = IF idem THEN @ ELSE 0] IN
        Set(FLoop(FArm(s0), TRUE))
     /\ act' = A("Start", 0, "-", "-", 0)
-    /\ UNCHANGED <<idem, target, ids>>
+    /\ UNCHANGED <<idem, target, ids, tm>>
 
 (* _set_result, ResultMessage: rows (paging state or not) / void *)
 AnsOk(a, k) ==
-    /\ a \in att
+    /\ a \in att /\ pend.host = 0
     /\ final # "unset" => Late
     /\ LET s1 == [S EXCEPT !.att = @ \ {a},
                            !.paging = IF k = "void" THEN @ ELSE (k = "more")] IN
        Set(FComplete(s1, IF k = "void" THEN "empty" ELSE "rows"))
     /\ act' = A("AnsOk", a, k, "-", 0)
-    /\ UNCHANGED <<idem, target, ids, started>>
+    /\ UNCHANGED <<idem, target, ids, tm, started>>
 
 (* what the oracle may answer now *)
 DecSet == IF retries >= MaxRetries
@@ -201,7 +227,7 @@ DecSet == IF retries >= MaxRetries
 (* _set_result, read/write timeout, unavailable, overloaded/bootstrapping/server error, or a          *)
 (* ConnectionShutdown delivered by the connection: consult the policy once, _handle_retry_decision.   *)
 AnsErr(a, k, d, c) ==
-    /\ a \in att
+    /\ a \in att /\ pend.host = 0
     /\ final # "unset" => Late
     /\ LET h  == sentLog[a].host
            s1 == [S EXCEPT !.att = @ \ {a},
@@ -212,27 +238,36 @@ AnsErr(a, k, d, c) ==
                         LET s3 == [s1 EXCEPT !.retries = @ + 1] IN
                         IF IsErr(final) THEN s3         \* _retry: "if self._final_exception: return"
                         ELSE [s3 EXCEPT !.cl = IF c # NoCL THEN c ELSE @,      \* `is not None`: ANY (0) is a level
-                                        !.queue = Append(@, [reuse |-> (d = "RETRY"), host |-> h])]
+                                        !.queue = Append(@, [reuse |-> (d = "RETRY"), host |-> h]),
+                                        !.pend = [host |-> h, kind |-> k]]   \* submitted; _errors[host] comes later
                    [] d = "RETHROW" -> FComplete(s1, k)
                    [] d = "IGNORE"  -> FComplete(s1, "empty") IN
-       Set([s2 EXCEPT !.errs = [@ EXCEPT ![h] = k]])
+       Set(IF s2.pend.host # 0 THEN s2 ELSE [s2 EXCEPT !.errs = [@ EXCEPT ![h] = k]])
     /\ act' = A("AnsErr", a, k, d, c)
-    /\ UNCHANGED <<idem, target, ids, started>>
+    /\ UNCHANGED <<idem, target, ids, tm, started>>
+
+(* the rest of _handle_retry_decision after session.submit(self._retry_task, ..): self._errors[host] = ...  *)
+(* Executor tasks (RetryTask) may run in between; other loop-thread callbacks may not.                      *)
+StoreErr ==
+    /\ pend.host # 0
+    /\ Set([S EXCEPT !.errs = [@ EXCEPT ![pend.host] = pend.kind], !.pend = NoPend])
+    /\ act' = A("StoreErr", 0, "-", "-", 0)
+    /\ UNCHANGED <<idem, target, ids, tm, started>>
 
 (* _set_result, any other ErrorMessage: raised directly *)
 AnsFatal(a, k) ==
-    /\ a \in att
+    /\ a \in att /\ pend.host = 0
     /\ final # "unset" => Late
     /\ Set(FComplete([S EXCEPT !.att = @ \ {a}], k))
     /\ act' = A("AnsFatal", a, k, "-", 0)
-    /\ UNCHANGED <<idem, target, ids, started>>
+    /\ UNCHANGED <<idem, target, ids, tm, started>>
 
 (* _on_speculative_execute (timer callback) *)
 SpecFire ==
-    /\ timer = "spec"
-    /\ Set(FArm(FLoop([S EXCEPT !.timer = "none"], FALSE)))
+    /\ timer = "spec" /\ pend.host = 0
+    /\ Set(FArm(FLoop([S EXCEPT !.timer = "none", !.now = Max(now, due), !.due = 0], FALSE)))
     /\ act' = A("SpecFire", 0, "-", "-", 0)
-    /\ UNCHANGED <<idem, target, ids, started>>
+    /\ UNCHANGED <<idem, target, ids, tm, started>>
 
 (* _on_timeout (timer callback): deregister the request designated by (_connection, _req_id) if it is *)
 (* still there, then OperationTimedOut.  Stream ids are not modelled: with ids that are never re-used   *)
@@ -240,14 +275,14 @@ SpecFire ==
 (* attempt currently registered on _connection.                                                         *)
 TimeoutFire ==
     /\ Timeouts
-    /\ timer = "timeout"
+    /\ timer = "timeout" /\ pend.host = 0
     /\ LET dereg == IF ids = "one"
                     \* every attempt carries stream id 0 = _req_id: whatever is registered on _connection is popped
                     THEN IF reqAtt # 0 THEN {a \in att : sentLog[a].host = lastConn} ELSE {}
                     ELSE IF reqAtt \in att /\ sentLog[reqAtt].host = lastConn THEN {reqAtt} ELSE {} IN
-       Set(FComplete([S EXCEPT !.att = @ \ dereg], "OperationTimedOut"))
+       Set(FComplete([S EXCEPT !.att = @ \ dereg, !.now = Max(now, due)], "OperationTimedOut"))
     /\ act' = A("TimeoutFire", 0, "-", "-", 0)
-    /\ UNCHANGED <<idem, target, ids, started>>
+    /\ UNCHANGED <<idem, target, ids, tm, started>>
 
 (* _retry_task (executor) *)
 RetryTask ==
@@ -258,20 +293,21 @@ RetryTask ==
        ELSE IF t.reuse /\ pool[t.host] = "healthy" THEN Set(FSend(s1, t.host, FALSE))
        ELSE Set(FLoop(IF t.reuse THEN FSkip(s1, t.host) ELSE s1, TRUE))
     /\ act' = A("RetryTask", 0, "-", "-", 0)
-    /\ UNCHANGED <<idem, target, ids, started>>
+    /\ UNCHANGED <<idem, target, ids, tm, started>>
 
 (* start_fetching_next_page (client thread, after the page was delivered).  Scope: no attempt of the  *)
 (* previous page outstanding and no retry task queued.  INTENDED: a fresh timer for the page fetch.    *)
 StartNextPage ==
     /\ started /\ final = "rows" /\ paging /\ epoch < MaxEpoch
-    /\ att = {} /\ queue = <<>>
+    /\ att = {} /\ queue = <<>> /\ pend.host = 0
     /\ LET s0 == [S EXCEPT !.plan = IF target # 0 THEN <<target>> ELSE FullPlan,
                            !.final = "unset",
                            !.epoch = @ + 1,
+                           !.now = 0,                       \* _start_time = time.time()
                            !.timer = "none"] IN
        Set(FLoop(FArm(s0), TRUE))
     /\ act' = A("StartNextPage", 0, "-", "-", 0)
-    /\ UNCHANGED <<idem, target, ids, started>>
+    /\ UNCHANGED <<idem, target, ids, tm, started>>
 
 Next ==
     \/ Start
@@ -279,13 +315,14 @@ Next ==
           \/ \E k \in OkKinds : AnsOk(a, k)
           \/ \E k \in ErrKinds : \E dc \in DecSet : AnsErr(a, k, dc[1], dc[2])
           \/ \E k \in FatalKinds : AnsFatal(a, k)
+    \/ StoreErr
     \/ SpecFire
     \/ TimeoutFire
     \/ RetryTask
     \/ StartNextPage
 
 Spec == Init /\ [][Next]_vars
-FairSpec == Spec /\ WF_vars(Start) /\ WF_vars(SpecFire) /\ WF_vars(TimeoutFire)
+FairSpec == Spec /\ WF_vars(Start) /\ WF_vars(StoreErr) /\ WF_vars(SpecFire) /\ WF_vars(TimeoutFire)
 
 -----------------------------------------------------------------------------
 TypeOK ==
@@ -366,6 +403,7 @@ Consumed == IF ~started THEN {}
 Inv_Skipped ==
     \A h \in Consumed :
         \/ \E i \in PlanSends(epoch) : sentLog[i].host = h
+        \/ pend.host = h
         \/ errs[h] \in {"ConnectionException", "NoConnectionsAvailable", "ConnectionShutdown", "ConnectionBusy"} \cup ErrKinds
 Inv_Exhausted == final = "NoHostAvailable" => plan = <<>>
 (* at the moment NoHostAvailable is raised its errors map (= errs) has an entry for every host that was    *)
@@ -373,7 +411,9 @@ Inv_Exhausted == final = "NoHostAvailable" => plan = <<>>
 Step_Exhausted ==
     [][(final = "unset" /\ final' = "NoHostAvailable") =>
          /\ plan' = <<>>
-         /\ \A h \in Consumed' : errs'[h] # "none" \/ \E a \in att' : sentLog'[a].host = h]_vars
+         /\ \A h \in Consumed' : nhaCls'[h] # "none" \/ \E a \in att' : sentLog'[a].host = h]_vars
+(* what was promised when NoHostAvailable was raised is in the live error map once the loop thread is through *)
+Inv_NHAListed == (final = "NoHostAvailable" /\ pend.host = 0) => \A h \in Hosts : nhaCls[h] # "none" => errs[h] # "none"
 Inv_Target == target # 0 => \A i \in 1..Len(sentLog) : sentLog[i].host = target
 
 -----------------------------------------------------------------------------
@@ -389,5 +429,7 @@ Witness_RetryCL         == cl = InitCL
 Witness_RetryAtANY      == ~(cl = 0 /\ sentLog # <<>> /\ sentLog[Len(sentLog)].cl = 0)
 Witness_NoHost          == final # "NoHostAvailable"
 Witness_NoHostAfterSend == ~(final = "NoHostAvailable" /\ sentLog # <<>>)
+Witness_Unfit           == ~unfit
+Witness_TaskBeforeStore == ~(act.name = "RetryTask" /\ pend.host # 0 /\ final = "NoHostAvailable")
 Witness_SkipAll         == ~(started /\ Cardinality({h \in Hosts : errs[h] # "none"}) = NHosts)
 =============================================================================
